@@ -208,6 +208,12 @@ func batchOf(v int64, rows int) arrow.RecordBatch {
 	return array.NewRecordBatch(OutSchema, []arrow.Array{arr}, int64(rows))
 }
 
+func emptyI64() arrow.Array {
+	b := array.NewInt64Builder(vgirpc.VerifAllocator())
+	defer b.Release()
+	return b.NewArray()
+}
+
 func (c *Core) turn(o string, val int64, out *vgirpc.OutputCollector) error {
 	emit := func() error {
 		if c.Script.Meta {
@@ -237,6 +243,11 @@ func (c *Core) turn(o string, val int64, out *vgirpc.OutputCollector) error {
 		panic("scripted panic after emit")
 	case "noemit":
 		return nil
+	case "emit0":
+		// a genuine zero-row data batch (an empty partition)
+		arr := emptyI64()
+		defer arr.Release()
+		return out.Emit(array.NewRecordBatch(OutSchema, []arrow.Array{arr}, 0))
 	case "emit2":
 		if err := emit(); err != nil {
 			return err
